@@ -223,8 +223,9 @@ CLAIMS['C20'] = dict(
           'collect_dot_path) and the 1-based/0-based conversions (ucg_pos_to_range, the delta encoding of encode_semantic_tokens) never '
           'panic or overflow, terminate, and return exactly the specified token / prefix / dot path; ranges derived from the token under '
           'the cursor lie on the requested line with start <= end; semantic-token deltas decode to real token positions. NOT covered: '
-          'the JSON-RPC loop (a request whose params do not deserialize terminates the server - recorded, not claimed), the '
-          'diagnostics-equal-fresh-server and parser-agreement clauses, the workspace index.'),
+          'the JSON-RPC loop, the diagnostics-equal-fresh-server and parser-agreement clauses, the workspace index: those are sampled '
+          'by the bounded stand-ins (a Python LSP client driving the real server: positions on every shipped file, seeded sessions, '
+          'malformed requests), with the deviations found listed as known findings.'),
     design_ref='DESIGN.md §5 C20',
     note=('Trusted: Verus/Z3; lsp_types Position/Range/SemanticToken extracted from the pinned dependency; verified loop models for '
           'position/find/rfind/chars().take(); tokens in document order and documents below 4 GiB per dimension (requires); '
